@@ -149,6 +149,7 @@ class C20(Check):
         out.append(("custom", scopes.SIG3, (0, 2, None, 1, None, None, 2, 0)))
         out.append(("custom", scopes.SIG2, (1, None, 0, None)))
         out.append(("metadata",))
+        out.append(("empty-base",))
         for conds, cls in [r for r in reps2 if r[1] == "strong"][:3]:
             out.append(("crash", scopes.SIG2, conds))
         for conds, cls in [r for r in reps3 if r[1] == "strong"][:2]:
@@ -166,6 +167,8 @@ class C20(Check):
                 self.roundtrip_custom(res, tmp, task[1], task[2])
             elif task[0] == "metadata":
                 self.metadata(res, tmp)
+            elif task[0] == "empty-base":
+                self.empty_base(res, tmp)
             else:
                 self.crash(res, tmp, task[1], task[2])
         finally:
@@ -367,6 +370,39 @@ class C20(Check):
         self.fresh(res, tmp, [{"path": path, "queries": queries, "lazy_order": []}],
                    {path: (dict(case, kind="crep-list"), dict(o4.ranks), want)})
 
+    def empty_base(self, res, tmp):
+        """Degenerate but legitimate objects: the ranking built from the empty impact vector of a base without conditionals."""
+        from inference.preocf import RandomMinCRepPreOCF
+
+        for sig in (scopes.SIG2, scopes.SIG3):
+            queries = QUERIES2 if len(sig) == 2 else QUERIES3
+            case = {"sig": sig, "conds": [], "conds_f": [], "kind": "crep-list", "config": "empty-base"}
+            res.evals += 1
+            try:
+                o = RandomMinCRepPreOCF.init_with_impacts_list(drive.mkbb(sig, []), [])
+                want = snapshot(o, queries)
+                got_list = o.save_impacts()
+                probs = []
+                if got_list != []:
+                    probs.append("save_impacts() = %r" % (got_list,))
+                for fmt, suffix in (("json", ".json"), ("pickle", ".pkl")):
+                    path = os.path.join(tmp, "empty" + suffix)
+                    o.export_impacts(path, fmt=fmt)
+                    o2 = RandomMinCRepPreOCF.init_with_impacts(drive.mkbb(sig, []), path)
+                    if snapshot(o2, queries) != want or o2.save_impacts() != []:
+                        probs.append("round trip through %s differs" % fmt)
+                path = os.path.join(tmp, "empty-ocf.pkl")
+                o.save_ocf(path)
+                self.fresh(res, tmp, [{"path": path, "queries": queries, "lazy_order": []}], {path: (case, dict(o.ranks), want)})
+            except Exception as e:  # noqa: BLE001
+                res.violation(self.id, "impacts-raises", dict(case, channel="empty"), "round trip of the empty impact vector", drive.exc_obs(e))
+                continue
+            if probs:
+                res.violation(self.id, "impacts-differ", dict(case, channel="empty"), "unchanged", probs)
+            else:
+                res.nontrivial.add(hash((tuple(sig), "empty-base")))
+        res.samples.append({"empty_base_objects": 2})
+
     def metadata(self, res, tmp):
         obj0 = mk_custom(scopes.SIG2, (0, 1, 2, 3))
         for i, meta in enumerate(META_MENU):
@@ -491,6 +527,8 @@ class C20(Check):
                 self.crash(r, tmp, cs["sig"], conds)
             elif cs["config"] == "metadata":
                 self.metadata(r, tmp)
+            elif cs["config"] == "empty-base":
+                self.empty_base(r, tmp)
             elif cs["config"] == "custom":
                 self.roundtrip_custom(r, tmp, cs["sig"], tuple(cs["prior"]))
             else:
